@@ -54,6 +54,7 @@ func cmdCheck(args []string) {
 		fmt.Fprintln(os.Stderr, "known findings:", err)
 		os.Exit(2)
 	}
+	allClausesMode = *tier == "thorough"
 	v := &Verifier{Prog: p, CS: cs, Prop: *prop, Tier: *tier, Known: known, UsedEnv: map[string]bool{}, UsedSummaries: map[string]bool{}, Verified: map[string]bool{}, AllClauses: map[string]bool{}}
 	var keys []string
 	for k, fc := range cs.Funcs {
